@@ -19,7 +19,7 @@
 (* members, values, oneOf], FieldDef [name, type, args, hasDef],           *)
 (* ArgDef [name, type, hasDef], DirDef [name, args, locs, rep].            *)
 (***************************************************************************)
-EXTENDS Integers, Sequences, FiniteSets, SequencesExt
+EXTENDS Integers, Sequences, FiniteSets, SequencesExt, TypeAlgebra
 
 CONSTANTS S, Devs
 
@@ -40,10 +40,7 @@ RECURSIVE TypeOf(_)
 TypeOf(g) == IF g.t = "named" THEN [k |-> "named", name |-> Val(g, "name"), nn |-> Has(g, "nn"), of |-> <<>>]
              ELSE [k |-> "list", name |-> "", nn |-> Has(g, "nn"),
                    of |-> <<TypeOf(SelectSeq(g.k, LAMBDA c : c.t \in {"named", "list"})[1])>>]
-RECURSIVE BaseName(_), TypeStr(_)
-BaseName(t) == IF t.k = "named" THEN t.name ELSE BaseName(t.of[1])
-TypeStr(t) == (IF t.k = "named" THEN t.name ELSE "[" \o TypeStr(t.of[1]) \o "]") \o (IF t.nn THEN "!" ELSE "")
-Nullable(t) == [t EXCEPT !.nn = FALSE]
+\* BaseName, TypeStr, Nullable and Compatible (AreTypesCompatible) come from module TypeAlgebra
 VarDefType(vd) == TypeOf(SelectSeq(vd.k, LAMBDA c : c.t \in {"named", "list"})[1])
 
 -----------------------------------------------------------------------------
@@ -255,13 +252,6 @@ VarDefsOf(D, op) == Kids(Ops(D)[op], "vardef")
 VarDefByName(D, op, name) == LET vds == VarDefsOf(D, op)
                                  idx == {j \in 1..Len(vds) : Val(vds[j], "var") = name}
                              IN IF idx = {} THEN <<>> ELSE <<vds[Min(idx)]>>
-
-RECURSIVE Compatible(_, _)
-\* AreTypesCompatible(variableType, locationType)
-Compatible(vt, lt) ==
-  IF lt.nn /\ ~vt.nn THEN FALSE
-  ELSE IF lt.k = "list" THEN vt.k = "list" /\ Compatible(vt.of[1], lt.of[1])
-  ELSE vt.k = "named" /\ vt.name = lt.name
 
 BadVarUse(x, D) ==
   x.n.t = "var" /\ x.exp # <<>> /\ x.op # 0 /\
